@@ -46,6 +46,8 @@ def fam_loops():
         out.append((f"lp_sum_{nm}", _loop(f"vn = d0.Setting\nacc = 0\nfor idx in {r}:\n    acc = acc + idx\nd1.Setting = acc")))
         out.append((f"lp_eff_{nm}", _loop(f"vn = d0.Setting\nfor idx in {r}:\n    d1.Setting = idx * 2\nd1.On = vn")))
         out.append((f"lp_break_{nm}", _loop(f"vn = d0.Setting\nacc = 0\nfor idx in {r}:\n    if idx == 2:\n        break\n    acc = acc + 1\nd1.Setting = acc")))
+    out.append(("lp_named_neg_step", HEADER + "stp = -2\nwhile True:\n    vn = d0.Setting\n    acc = 0\n    for idx in range(5, vn, stp):\n        acc = acc + idx\n        d1.Setting = idx\n    d2.Setting = acc\n    yield_()\n"))
+    out.append(("lp_named_pos_step", HEADER + "stp = 2\nlim = 5\nwhile True:\n    vn = d0.Setting\n    for idx in range(vn, lim, stp):\n        d1.Setting = idx\n    yield_()\n"))
     out.append(("lp_nested", _loop("acc = 0\nfor ia in range(2):\n    for ib in range(3):\n        acc = acc + ia * ib\nd0.Setting = acc")))
     out.append(("lp_nested_dev", _loop("vn = d0.Setting\nacc = 0\nfor ia in range(2):\n    for ib in range(2):\n        acc = acc + vn + ia\nd1.Setting = acc")))
     out.append(("lp_while_break", _loop("cnt = 0\nwhile True:\n    cnt = cnt + 1\n    if cnt > d0.Setting:\n        break\n    if cnt > 3:\n        break\nd1.Setting = cnt")))
@@ -78,6 +80,7 @@ def fam_functions():
     out.append(("fn_early_inner", HEADER + "def fa(xa):\n    return xa + 1\ndef fb(xa):\n    vt = fa(xa)\n    if vt > 1:\n        return vt\n    d2.Setting = vt\n    return fa(vt) * 2\nwhile True:\n    d1.Setting = fb(d0.Setting)\n    d3.Setting = fb(1)\n    yield_()\n"))
     out.append(("fn_early_void_inner", HEADER + "def fa(xa):\n    d1.Setting = xa\ndef fb(xa):\n    if xa < 1:\n        return\n    fa(xa)\n    if xa > 1:\n        return\n    fa(xa + 5)\nwhile True:\n    fb(d0.Setting)\n    fb(d2.Setting)\n    yield_()\n"))
     out.append(("fn_global_late", HEADER + "def fa(xa):\n    global total\n    total = total + xa\ndef fb(xa):\n    global total\n    total = total * 2 + xa\ntotal = 100\nwhile True:\n    fa(d0.Setting)\n    vt = d1.Setting * 3 + 1\n    vu = vt * 2\n    fb(vu)\n    d2.Setting = total + vt\n    yield_()\n"))
+    out.append(("fn_global_hidden", HEADER + "def bump():\n    global total\n    total = total + 1\ndef report():\n    d1.Setting = total\ntotal = 100\nwhile True:\n    va = d0.Setting * 2 + 1\n    vb = va * va + 3\n    bump()\n    bump()\n    d2.Setting = vb + va\n    report()\n    yield_()\n"))
     out.append(("fn_nested_bound", HEADER + "def area(wa, ha):\n    acc = 0\n    for ia in range(wa):\n        for ib in range(ha):\n            acc = acc + ia + 1\n    return acc\nwhile True:\n    d1.Setting = area(d0.Setting, 2) + area(2, d0.Setting)\n    yield_()\n"))
     out.append(("fn_uncalled", HEADER + "def fa(xa):\n    return xa + 1\ndef fnever(xa):\n    d3.Setting = xa\n    return 0\nwhile True:\n    d1.Setting = fa(d0.Setting)\n    yield_()\n"))
     return out
